@@ -403,6 +403,15 @@ def chains(ctx, F):
                         okf = True
             if not okf:
                 problems.append('indices are not filtered by != clazz')
+            # every other component is compared: the indices are ALL of 0..dim except clazz (no skip / take / shifted start)
+            RANGE = ('agg', ('adt', 'Range', 'Range', ('start', 'end')), (('const', 0), ('param', 'dim')))
+            for x in subs + roots:
+                its = [y[2][0] for y in walk(x[2][1]) if is_call(y, 'Iterator::next')]
+                if not its:
+                    continue
+                I = s(its[0])
+                if not (is_call(I, 'Iterator::filter') and len(I[2]) == 2 and s(I[2][0]) == RANGE and I[2][1][0] == 'closure'):
+                    problems.append('the compared indices are not the whole range 0..dim filtered by != clazz: %s' % fmt(I)[:90])
         if problems:
             for p in problems:
                 ctx.bad('C17.R3', q + '#labels', p, b.span)
